@@ -5,6 +5,7 @@ package main
 import (
 	"encoding/json"
 	"fmt"
+	"math"
 	"math/rand"
 	"strconv"
 	"strings"
@@ -234,6 +235,70 @@ func consumesAll(views []segView, input string) bool {
 	return rest == ""
 }
 
+// canonicalFromMeaning prints a segment from what the parser understood (its accessors).
+func canonicalFromMeaning(v segView) string {
+	var t string
+	switch {
+	case v.Identity:
+		return "."
+	case v.Iterator:
+		t = "[]"
+	case len(v.Slice) == 2:
+		lo, hi := "", ""
+		if v.Slice[0] != math.MinInt {
+			lo = strconv.FormatInt(v.Slice[0], 10)
+		}
+		if v.Slice[1] != math.MaxInt {
+			hi = strconv.FormatInt(v.Slice[1], 10)
+		}
+		t = "[" + lo + ":" + hi + "]"
+	case strings.HasPrefix(v.Str, "[\""):
+		t = "[\"" + v.Field + "\"]"
+	case strings.HasPrefix(v.Str, "."):
+		t = "." + v.Field
+	default:
+		t = "[" + strconv.Itoa(v.Index) + "]"
+	}
+	if v.Optional {
+		t += "?"
+	}
+	return t
+}
+
+// normaliseSegText removes what is mere spelling from a segment's own text: repeated '?', and
+// the spelling of integers between brackets (leading zeros, "-0").  Everything else must be
+// reflected in the parsed meaning.
+func normaliseSegText(s string) string {
+	opt := strings.HasSuffix(s, "?")
+	s = strings.TrimRight(s, "?")
+	if strings.HasPrefix(s, "[") && strings.HasSuffix(s, "]") && !strings.Contains(s, "\"") {
+		parts := strings.Split(s[1:len(s)-1], ":")
+		for i, p := range parts {
+			if n, err := strconv.ParseInt(p, 10, 64); err == nil {
+				parts[i] = strconv.FormatInt(n, 10)
+			}
+		}
+		s = "[" + strings.Join(parts, ":") + "]"
+	}
+	if opt {
+		s += "?"
+	}
+	return s
+}
+
+// meaningCoversText: every segment's text is, up to spelling, what printing its meaning gives.
+func meaningCoversText(views []segView) (bool, string, string) {
+	for _, v := range views {
+		if v.Identity {
+			continue
+		}
+		if c, n := canonicalFromMeaning(v), normaliseSegText(v.Str); c != n {
+			return false, c, n
+		}
+	}
+	return true, "", ""
+}
+
 type selCase struct {
 	Sel    []segRec         `json:"sel"`
 	Val    []any   `json:"val"`
@@ -363,6 +428,10 @@ func init() {
 				printed := sel.String()
 				if !consumesAll(views, text) {
 					rep.violation(json.RawMessage(raw), text, printed, "accepted, but the parsed segments do not spell the whole input (something was dropped)")
+					continue
+				}
+				if ok, canon, norm := meaningCoversText(views); !ok {
+					rep.violation(json.RawMessage(raw), norm, canon, "accepted, but a part of the text is not reflected in the parsed meaning (printing the meaning gives a different selector)")
 					continue
 				}
 				again, err := parseReal(printed)
@@ -544,7 +613,8 @@ func init() {
 	// random selector texts: what the real parser accepts must spell the whole input
 	drivers["seltext"] = func(seed int64, n int, emit func(any)) error {
 		rng := rand.New(rand.NewSource(seed))
-		atoms := []string{".", ".", "[", "]", "\"", "?", ":", "\\", "a", "b_", "é", "0", "12", "-", "$", " ", "[]", "[0]", `["a"]`, "[1:]", ".foo", "..", `\"`}
+		atoms := []string{".", ".", "[", "]", "\"", "?", ":", "\\", "a", "b_", "é", "0", "12", "-", "$", " ", "[]", "[0]", `["a"]`, "[1:]", ".foo", "..", `\"`,
+			"[1:2:3]", "[:1:2]", "[1::3]", "[-1:-]", "[1:2", "1:2]", `["a":1]`, `[1:"a"]`, "[0:2:x]"}
 		for it := 0; it < n; it++ {
 			text := "."
 			if rng.Intn(20) == 0 {
@@ -565,6 +635,9 @@ func init() {
 				}
 				again, err2 := parseReal(sel.String())
 				same = err2 == nil && sameViews(viewOf(sel), viewOf(again), true)
+				if ok, _, _ := meaningCoversText(viewOf(sel)); !ok {
+					same = false
+				}
 			}
 			ev["strs"], ev["ident"], ev["reparse_same"] = strs, ident, same
 			emit(ev)
